@@ -527,3 +527,24 @@ def unified_status_violations():
         if v >= 14:
             bad += [(v,) + f for f in legacy_status_fields(v) if f not in LEGACY_STATUS_LEFT_IN_V14]
     return bad
+
+
+def legacy_family_inconsistencies():
+    """In the EZSP reference a command's status field is a stack status (EmberStatus) or a serial-protocol status (EzspStatus),
+    and stays that from one protocol version to the next (v4..v13; v14 replaced both by the unified status).  Returns the
+    (command, side, field, {version: family}) whose family differs between versions -- the byte on the wire is the same, the
+    family decides what it converts to."""
+    import collections
+    import bellows.ezsp as E
+    import bellows.types as t
+    fam = collections.defaultdict(dict)
+    for v, cls in sorted(E.EZSP._BY_VERSION.items()):
+        if v >= 14:
+            continue
+        for name, (_cid, tx, rx) in cls.COMMANDS.items():
+            for side, sch in (("tx", tx), ("rx", rx)):
+                fields = list(sch.items()) if isinstance(sch, dict) else [(f.name, f.type) for f in getattr(sch, "fields", [])]
+                for fname, ty in fields:
+                    if isinstance(ty, type) and issubclass(ty, (t.EmberStatus, t.EzspStatus)):
+                        fam[(name, side, fname)][v] = ty.__name__
+    return [(k[0], k[1], k[2], dict(vs)) for k, vs in sorted(fam.items()) if len(set(vs.values())) > 1]
